@@ -9,15 +9,16 @@ users pass the right atoms in the right order and keep units consistent.
 from __future__ import annotations
 
 import ast
-from typing import Any, Dict, List
+import math
 
-from checks.c03 import K, spec
+from checks.c03 import K
 from checks.c08 import flat
-from sa import astq, intervals
+from sa import astq
 from sa.consteval import Folder
 from sa.defuse import Inliner
-from sa.model import AnalysisError, norm
-from sa.polyalg import AlgebraError, analyse_torsion
+from sa.model import norm
+from sa.polyalg import AlgebraError
+from sa import torsion as TA
 
 T1, T2, AN = "tertiary", "tertiary_v2", "annotator"
 EPS_MAX = 1e-3
@@ -27,8 +28,9 @@ def check_function(chk, module: str, qual: str) -> None:
     repo = chk.repo
     fi = repo.func(module, qual)
     chk.note_function(fi)
+    fold = Folder(repo, module)
     try:
-        res = analyse_torsion(fi.node)
+        res = TA.analyse(fi.node, fold.fold)
     except AlgebraError as ex:
         chk.error("torsion-closed-form", fi.where, f"function body is outside the straight-line vector algebra: {ex}")
         return
@@ -51,23 +53,63 @@ def check_function(chk, module: str, qual: str) -> None:
         expected="atan2(|b2| b1.(b2 x b3), (b1 x b2).(b2 x b3))",
         found={k: res[k] for k in ("same_ratio", "negated_ratio", "x_positive_multiple", "x_negative_multiple")},
     )
-    # degenerate guards: collinearity tests with a tiny tolerance only
-    fold = Folder(repo, module)
-    for g in res["guards"]:
-        consts = [fold.try_fold(c) for n in ast.walk(g.test) if isinstance(n, ast.Compare) for c in n.comparators]
-        norms = [n for n in ast.walk(g.test) if isinstance(n, ast.Compare)]
-        shape_ok = all(isinstance(n.ops[0], (ast.Lt, ast.LtE)) and len(n.ops) == 1 for n in norms) and all(isinstance(c, (int, float)) and 0 < c <= EPS_MAX for c in consts) and len(consts) >= 1
-        lefts = [norm(n.left) for n in norms]
-        left_ok = all(l.endswith("_norm") or "linalg.norm(" in l for l in lefts)
-        too_wide = [c for c in consts if isinstance(c, (int, float)) and c > EPS_MAX] and all(isinstance(n.ops[0], (ast.Lt, ast.LtE)) and len(n.ops) == 1 for n in norms)
-        chk.expect(
-            shape_ok and left_ok,
-            "degenerate-guard" if too_wide else "degenerate-guard-form",
-            fi.site(g),
-            f"early return only when a cross product is (nearly) zero: `{norm(g.test)[:70]}`",
-            f"early return under `{norm(g.test)[:80]}` is not a collinearity test with a tolerance <= {EPS_MAX}: non-degenerate geometries get the fallback value instead of phi",
-            K(fi, f"guard:{norm(g.test)[:50]}"),
-        )
+    # degenerate guards: every early return before the atan2 fires only where a cross product (or a bond) is (nearly) zero.
+    # The condition is brought to facts `Q < c` (Q a monomial in norms, c folded numerically) whatever its spelling.
+    for g, genv, gdefs in res["guards"]:
+        gkey = K(fi, f"guard:{norm(g.test)[:50]}")
+        try:
+            tree = TA.guard_tree(g.test, genv, res["alg"], gdefs)
+        except TA.NotAThreshold as ex:
+            chk.error("degenerate-guard", fi.site(g), f"condition of the early return is not readable as bounds on norms: {ex}")
+            continue
+
+        def atom_status(a):
+            """'ok' a degeneracy test within the tolerance | 'bad' | 'never' | 'always'  (+ text)"""
+            if not a["monomial"]:
+                return ("always", f"`{a['text']}` compares two constants and is always true: every input gets the fallback value") if a.get("holds") else ("never", "")
+            if a.get("never"):
+                return ("never", "")  # a norm below a non-positive number
+            kind, desc = TA.classify(a["monomial"], res["quantities"], res["alg"])
+            c = a["c"]
+            if kind == "other":
+                return ("bad", f"`{a['text']}` bounds {desc}: geometries that are not degenerate get the fallback value instead of phi")
+            if not (0 < c <= EPS_MAX):
+                extra = ""
+                if kind == "sine" and 0 < c < 1:
+                    lo = math.degrees(math.asin(c))
+                    extra = f": every quadruple with a bond angle below {lo:.1f} or above {180 - lo:.1f} degrees gets the fallback value"
+                elif kind == "sine" and c >= 1:
+                    extra = ": every quadruple gets the fallback value"
+                return ("bad", f"`{a['text']}` accepts {desc} up to {c:.4g}, far beyond a collinearity tolerance of {EPS_MAX}{extra}")
+            return ("ok", f"{desc} < {c:.3g}")
+
+        def status(t):
+            """(verdict, facts, problems) of a sub-condition: `or` fires where any child fires, `and` only where all do."""
+            if t[0] == "atom":
+                v, txt = atom_status(t[1])
+                return v, ([txt] if v == "ok" else []), ([txt] if v in ("bad", "always") else [])
+            subs = [status(c) for c in t[1]]
+            vs = [x[0] for x in subs]
+            facts = [f for x in subs for f in x[1]]
+            probs = [p for x in subs for p in x[2]]
+            if t[0] == "or":
+                if "bad" in vs or "always" in vs:
+                    return "bad" if "bad" in vs else "always", facts, probs
+                return ("ok" if "ok" in vs else "never"), facts, probs
+            if "never" in vs:
+                return "never", [], []
+            if "ok" in vs:
+                return "ok", facts, []  # the conjunction fires only inside the region of its tight member
+            return ("always" if all(v == "always" for v in vs) else "bad"), facts, probs
+
+        verdict, facts, problems = status(tree)
+        found = [{"quantity": TA.classify(a["monomial"], res["quantities"], res["alg"])[1] if a["monomial"] else "constant", "bound": a["c"]} for a in TA.tree_atoms(tree)][:4]
+        if verdict in ("bad", "always"):
+            chk.violation("degenerate-guard", fi.site(g), "early return under `" + norm(g.test)[:80] + "` is not a collinearity test with a tolerance <= " + str(EPS_MAX) + ": " + "; ".join(problems[:2]), gkey, expected=f"|b_i x b_j| (or the sine of the bond angle) < c with c <= {EPS_MAX}", found=found)
+        elif verdict == "never":
+            chk.error("degenerate-guard", fi.site(g), f"early return under `{norm(g.test)[:80]}` bounds no norm from above by a positive number: not readable as a degeneracy test")
+        else:
+            chk.ok("degenerate-guard", fi.site(g), "early return only when the geometry is degenerate: " + " or ".join(facts))
     # numpy.clip(c, -1, 1) is read as the identity by the algebra: that needs |c| <= 1, i.e. c is a dot product of vectors of length <= 1
     inl = Inliner(fi.node)
     from sa.flow import FlowMap
@@ -140,40 +182,28 @@ def check_function(chk, module: str, qual: str) -> None:
             chk.error("clip-noop", fi.site(c), f"length bound of `{unk[0][1][:60]}` not established")
         else:
             chk.ok("clip-noop", fi.site(c), "the clipped dot product is between vectors of length <= 1: the clip only removes round-off")
-    # every other statement before the atan2 was interpreted; after it: the value is returned (radians)
-    rets = [r for r in astq.walk_no_nested(fi.node) if isinstance(r, ast.Return) and r.value is not None]
-    final = [r for r in rets if r.lineno >= res["atan2_stmt"].lineno]
-    tgt = res["atan2_stmt"].targets[0].id if isinstance(res["atan2_stmt"], ast.Assign) and isinstance(res["atan2_stmt"].targets[0], ast.Name) else None
-    ok = len(final) == 1 and (norm(final[0].value) in (tgt, f"{tgt} if not math.isnan({tgt}) else 0.0", f"float({tgt})") or final[0] is res["atan2_stmt"])
-    chk.expect(ok, "torsion-returned", fi.where, "the atan2 value (radians, in (-pi, pi]) is what the function returns", "the function does not return the atan2 value unchanged (unit conversion, negation or offset after the atan2)", K(fi, "returned"), found=[norm(r.value) for r in final])
-    extra_ifs = [s for s in fi.node.body if isinstance(s, ast.If) and s not in res["guards"]]
-    chk.expect(not extra_ifs, "degenerate-guard", fi.where, "no branch after the closed form", f"additional branch after the closed form: `{norm(extra_ifs[0].test)[:60]}`" if extra_ifs else "", K(fi, "late-branch"))
+    # after the atan2: the value is returned unchanged (radians) on every path
+    from checks import c18e
+
+    c18e.check_returned(chk, fi, res, module)
 
 
 def check_users(chk) -> None:
     repo = chk.repo
     ta = repo.func(T1, "torsion_angle")
     chk.note_function(ta)
-    rets = [r for r in ta.node.body if isinstance(r, ast.Return)]
-    chk.expect(len(rets) == 1 and flat(rets[0].value) == flat("calculate_torsion_angle_coords(a1.coordinates, a2.coordinates, a3.coordinates, a4.coordinates)"), "torsion-wrapper", ta.where, "torsion_angle passes the four atoms' coordinates in order", "torsion_angle does not pass (a1, a2, a3, a4).coordinates in order", K(ta, "wrapper"))
-    from checks import c03, c11, c15
+    from checks import c03, c11, c18e
 
-    c15.check_chi(chk)
+    if not c18e.check_wrapper(chk, ta):
+        rets = [r for r in ta.node.body if isinstance(r, ast.Return)]
+        chk.expect(len(rets) == 1 and flat(rets[0].value) == flat("calculate_torsion_angle_coords(a1.coordinates, a2.coordinates, a3.coordinates, a4.coordinates)"), "torsion-wrapper", ta.where, "torsion_angle passes the four atoms' coordinates in order", "torsion_angle does not pass (a1, a2, a3, a4).coordinates in order", K(ta, "wrapper"))
+
+    # chi of both implementations, the torsion table of tertiary_v2 (evaluated on stub residues / segments; pinned form only as a fallback)
+    c18e.check_chi(chk)
     c03.check_cis_trans(chk)
     c11.check_bph(chk)
-    # chi_class: radians against radians
-    cc = repo.func(T1, "Residue3D.chi_class")
-    chk.note_function(cc)
-    tests = [s for s in cc.node.body if isinstance(s, ast.If) and "self.chi" in norm(s.test) and "isnan" not in norm(s.test)]
-    if len(tests) != 1:
-        chk.error("chi-class-units", cc.where, "syn/anti test not found")
-    else:
-        try:
-            reg = intervals.region(tests[0].test, [((lambda n: norm(n) == "self.chi"), "rad")], Folder(repo, T1).fold, extra_thresholds=(-30.0, 120.0, -180.0, 180.0))
-            bad = {k: v for k, v in reg.items() if -180 <= k[0] <= 180 and v != (-30 < k[0] < 120)}
-            chk.expect(not bad and norm(tests[0].body[0]) == "return GlycosidicBond.syn", "chi-class-units", cc.site(tests[0]), "syn iff -30 < chi < 120 degrees, compared in radians", f"`{norm(tests[0].test)}` does not compare the radian-valued chi with -30..120 degrees converted to radians", K(cc, "units"), found={str(k): v for k, v in list(bad.items())[:4]})
-        except intervals.NotThreshold as ex:
-            chk.error("chi-class-units", cc.site(tests[0]), str(ex))
+    # chi_class: radians against radians, evaluated on one chi per cell
+    c18e.check_chi_class(chk)
     # inter-stem torsion: radians in, degrees out
     ci = repo.func(T1, "Mapping2D3D.calculate_inter_stem_parameters")
     chk.note_function(ci)
@@ -183,36 +213,33 @@ def check_users(chk) -> None:
     ok = ok and len(outs) == 1 and norm(outs[0]) == "math.degrees(torsion_radians)"
     pdf = [c for c in astq.calls(ci.node, "pdf") if norm(c.args[0]) == "torsion_radians"] if tr is not None else []
     chk.expect(ok and len(pdf) == 1, "interstem-units", ci.where, "inter-stem torsion is computed in radians, scored in radians, reported in degrees", "inter-stem torsion units changed (radians into the von Mises pdf, degrees out)", K(ci, "units"))
-    # tertiary_v2 users call the second implementation with coordinates in definition order
-    st = repo.func(T2, "Structure.torsion_angles")
-    chk.note_function(st)
-    bb = [c for c in astq.calls(st.node, "calculate_torsion_angle") if flat(c) == flat("calculate_torsion_angle(atoms[0], atoms[1], atoms[2], atoms[3])")]
-    chk.expect(len(bb) == 1, "torsion-wrapper", st.where, "backbone torsions pass the four atoms in definition order", "backbone torsions do not pass atoms[0..3] in order", K(st, "backbone-call"))
-    app = [s for s in ast.walk(st.node) if isinstance(s, ast.Expr) and norm(s.value) == "atoms.append(atom.coordinates)"]
-    chk.expect(len(app) == 1, "torsion-wrapper", st.where, "atoms are collected in the order of the definition", "atom coordinates are not appended in definition order", K(st, "backbone-order"))
 
 
 def run(chk) -> None:
     chk.explanation = (
         "Polynomial normal forms (exact rational arithmetic, positive norm symbols with norm^2 -> v.v) of the two atan2 arguments of each torsion function, obtained by reading the function body "
-        "statement by statement, are compared with the IUPAC closed form: y * x_ref - x * y_ref must be the zero polynomial and x a positive multiple of x_ref. That decides the value for every "
-        "non-degenerate quadruple at once (hence range, reversal symmetry, mirror antisymmetry, rigid invariance). Degenerate guards must be collinearity tests with a tolerance <= 1e-3; the "
-        "atan2 value must be returned unchanged; users (chi, cis/trans, BPh splits, chi class, inter-stem, backbone tables) pass IUPAC atom quadruples in order with consistent units."
+        "statement by statement (new module-level helpers inlined, unpacked comprehensions written out), are compared with the IUPAC closed form: y * x_ref - x * y_ref must be the zero polynomial and x a "
+        "positive multiple of x_ref. That decides the value for every non-degenerate quadruple at once (hence range, reversal symmetry, mirror antisymmetry, rigid invariance). Every early return before the "
+        "atan2 is brought to bounds Q < c on monomials in norms (thresholds folded numerically, through np.sin / arcsin / degrees / min / not): Q must be the norm of a cross product of consecutive bonds, the sine "
+        "of a bond angle or a bond length, and c <= 1e-3. The statements after the atan2 are evaluated on representative values and proved to return the value unchanged. Users are decided by evaluation of "
+        "the fragments on stubs: chi of Residue3D on 12 one-letter names x 11 sets of atoms, chi_class on one chi per cell, the tertiary_v2 torsion table on five stub-segment scenarios, against the IUPAC atom "
+        "table; cis/trans, BPh splits and inter-stem units as before."
     )
     chk.trusted = ["CPython ast", "numpy cross/dot/norm/arctan2 semantics", "IUPAC-IUB torsion table (spec/iupac_torsions.json)"]
     chk.assumptions = ["non-degenerate input (no three consecutive points collinear)", "floating-point error is not decided"]
-    chk.robust |= {"torsion-closed-form", "clip-noop", "chi-atoms", "chi-agree", "backbone-atoms", "cis-trans", "cis-trans-atoms", "bph-split", "bph-class-table", "chi-class-units", "chi-dispatch", "degenerate-guard"}
+    chk.robust |= {"torsion-closed-form", "clip-noop", "chi-atoms", "chi-agree", "chi-bases", "backbone-atoms", "cis-trans", "cis-trans-atoms", "bph-split", "bph-class-table", "chi-class-units", "chi-dispatch", "degenerate-guard", "torsion-returned", "torsion-wrapper"}
     check_function(chk, T1, "calculate_torsion_angle_coords")
     check_function(chk, T2, "calculate_torsion_angle")
     check_users(chk)
     chk.floor("torsion-closed-form", 2)
-    chk.floor("degenerate-guard-form", 2)
+    chk.floor("degenerate-guard", 2)
 
 
 MANIFEST_ENTRY = {
     "text": "Exact algebraic decision on the current source: for both torsion implementations the atan2 arguments, as polynomials in the 12 coordinates (with positive norm symbols), satisfy y * x_ref = x * y_ref "
     "with x a positive multiple of x_ref, where (y_ref, x_ref) is the IUPAC closed form - a proof over all non-degenerate point quadruples, which constructed-angle sampling can only approximate. "
-    "tertiary.py = IUPAC; tertiary_v2.py = exact negation (known finding F18, pinned by a test, reported as KNOWN-FINDING). Degenerate guards, returned value, users' atom quadruples and units are checked structurally.",
+    "tertiary.py = IUPAC; tertiary_v2.py = exact negation (known finding F18, pinned by a test, reported as KNOWN-FINDING). Degenerate guards are decided as bounds on norm monomials with numerically folded thresholds; "
+    "the returned value, the atom quadruples of chi / the backbone table and the units of chi_class are decided by evaluating the fragments on input-class representatives (stub residues and segments).",
     "note": "Trusted: numpy primitives; the algebra engine (sa/polyalg.py). Not decided: degenerate branches (0.0 vs NaN), floating-point error.",
     "technique": "static analysis: abstract interpretation of straight-line vector code into polynomial normal forms + polynomial identity check against the IUPAC closed form",
 }
